@@ -3,7 +3,7 @@ CONSTANTS
   AtomNames = {"nil", "boolean", "integer", "number", "string", "table", "true", "false", "1", "-1", "s", "sp", "dq", "bs", "A", "B", "Al", "E"}
   SibNames = {"integer", "nil", "s"}
   KeyNames = {"string", "integer"}
-  RecShapes1 = {"x", "x?", "[1]", "['a-b']", "[string]", "['a b']", "['1']", "['a\"b']", "['']"}
+  RecShapes1 = {"x", "x?", "[1]", "['a-b']", "[string]", "['a b']", "['1']", "[dq]", "['']"}
   RecShapes2 = {"x,y?", "x,[string]", "x,['a b']"}
   Depth2Kinds = {"union", "opt", "arr", "map", "rec"}
   Depth3Kinds = {"opt", "arr", "union", "map"}
